@@ -114,6 +114,18 @@ impl<T> MailboxProducer<T> {
     self.shared.wake_consumer(&mut guard);
   }
 
+  /// The receiver that owns this mailbox closed itself: drop what is buffered,
+  /// accept nothing more, and make every receive form report Disconnected.
+  pub(crate) fn close_by_consumer(&self) {
+    let mut guard = self.shared.internal.lock();
+    guard.capacity = 0;
+    guard.is_disconnected = true;
+    let buffered = std::mem::take(&mut guard.buffer);
+    self.shared.wake_consumer(&mut guard);
+    drop(guard);
+    drop(buffered);
+  }
+
   /// Signals to the consumer that the channel is disconnected.
   pub(crate) fn disconnect(&self) {
     let mut guard = self.shared.internal.lock();
